@@ -4,7 +4,9 @@
   the C07 theorems are about.  Generic scalar type: no algebraic law is used.
 -/
 import UmapModel.Sgd
+import UmapModel.Rng
 import Generated.LayoutSrc
+import Generated.UtilsSrc
 import UmapProofs.SrcLemmas
 
 set_option linter.unusedSectionVars false
@@ -35,5 +37,15 @@ theorem rdist_src (x y : List α) (h : x.length = y.length) :
   simp [List.getD_eq_getElem?_getD, hx, hy]
 
 end generic
+
+/-- `tau_rand_int` as written in the source of umap/utils.py (int64 words; `>>` the arithmetic shift; the result truncated
+    to int32 by the declared numba signature `i4(i8[:])`) is the model's Tausworthe step: same new state words, same
+    signed result. -/
+theorem tauRandInt_src (a b c : BitVec 64) :
+    SrcUtils.tauRandInt [a, b, c]
+      = ((Rng.tauRandInt (a, b, c)).2,
+         [(Rng.tauRandInt (a, b, c)).1.1, (Rng.tauRandInt (a, b, c)).1.2.1, (Rng.tauRandInt (a, b, c)).1.2.2]) := by
+  simp [SrcUtils.tauRandInt, Rng.tauRandInt, Rng.step0, Rng.step1, Rng.step2, Rng.mask32]
+
 end C07Src
 end Umap
